@@ -281,7 +281,7 @@ pub fn run(ctx: &mut Ctx) {
         ctx.next_case();
         exhaustive_short(ctx);
     }
-    let n = ctx.budget(150_000, 4_000_000);
+    let n = if ctx.miri { ctx.miri_cases(12) } else { ctx.budget(1_200_000, 25_000_000) };
     for i in 0..n {
         if !ctx.next_case() {
             return;
